@@ -19,6 +19,7 @@ import (
 	policycfg "github.com/containers/nri-plugins/pkg/apis/config/v1alpha1/resmgr/policy"
 	tacfg "github.com/containers/nri-plugins/pkg/apis/config/v1alpha1/resmgr/policy/topologyaware"
 	"github.com/containers/nri-plugins/pkg/kubernetes"
+	pkgmetrics "github.com/containers/nri-plugins/pkg/metrics"
 	"github.com/containers/nri-plugins/pkg/pidfile"
 	"github.com/containers/nri-plugins/pkg/resmgr"
 	"github.com/containers/nri-plugins/pkg/resmgr/cache"
@@ -130,6 +131,7 @@ func newBackend(policy string) policyapi.Backend {
 func (w *world) boot(cfg *CfgSpec) error {
 	// a new incarnation is a new process: package-level state starts afresh
 	topologyaware.VerifResetGlobals()
+	pkgmetrics.VerifResetDefaultRegistry()
 	state := filepath.Join(w.root, "state")
 	hostRoot := filepath.Join(w.root, "host")
 	resmgr.VerifSetDirs(state, hostRoot)
